@@ -57,6 +57,9 @@ def run():
     # the re-keying histories (K1 -> K2 -> K1 with randomx_vm_set_cache on a live interpreter / JIT light VM) on EVERY adversarial key pair:
     # proper prefix, empty key, equal first 60 bytes, embedded NUL, K2 = K1 without its trailing NUL, table-growing pair, ...
     allh += [(h, False, ks) for h in (directed[2], directed[10]) for ks in range(len(apiscen.KEYSETS))]
+    # ... and the variant in which the VM is re-bound only after the cache went K1 -> K2 -> K1 (what the VM kept from its first binding must
+    # still be valid or be refreshed: pointers into the cache object, compiled code, remembered key)
+    allh += [(apiscen.late_rebind_history(kind), False, ks) for kind in ('IL', 'CL') for ks in range(len(apiscen.KEYSETS))]
     scens = []
     combos = set()
     fullcombos = set()
